@@ -315,13 +315,188 @@ def rule_koyama_kernel(ctx, rule='R11.k'):
                   'no reference text offline)', m.loc(), sample={'kernel': N.show(t)[:200]})
 
 
-def run_koyama_init(prog, preset):
+def rule_koyama_moments(ctx, rule='R11.g'):
+    """Reference-free identities that the moment formulas of DiscreteKoyama must satisfy (no copy of the published equations
+    is available offline, but these follow from what the quantities *are*):
+      (a) cos_avg and cos_sq_avg are the first two moments of one Boltzmann distribution of the bond-angle cosine with
+          weight exp(-epsilon*cos): then  <cos^2> = <cos>^2 - d<cos>/d(epsilon)  identically in epsilon and cos0;
+      (b) kernel_base(n) returns <r^2> and <r^4> of two sites n bonds apart on a chain with fixed bond length l:
+          n=1: <r^2> = l^2, <r^4> = l^4 (one rigid bond);  n=2: r^2 = 2 l^2 (1 - cos), so <r^2> = 2 l^2 (1 - <cos>) and
+          <r^4> = 4 l^4 (1 - 2<cos> + <cos^2>);  any n: <r^2> = l^2 [ n + 2 sum_{k=1}^{n-1} (n-k) (-<cos>)^k ]  (bond
+          correlations of a freely rotating chain decay as (-<cos>)^k).
+    (b) is checked for n = 1, 2 (thorough tier: the <r^2> series up to n = 5)."""
+    cls = ctx.prog.cls(KOY)
+    # (a)
+    m1, m2 = cls.find_method('cos_avg'), cls.find_method('cos_sq_avg')
+    construct = KOY + '.cos_sq_avg'
+    if m1 is None or m2 is None:
+        ctx.undecided(rule, construct, 'cos_avg / cos_sq_avg vanished')
+    else:
+        try:
+            ip = _ip(ctx.prog)
+            o = Obj(cls, {a: Num(ip.declare(a)) for a in ('sigma', 'l', 'lp', 'cos0')}, 'self')
+            e = Num(ip.declare('epsilon'))
+            c1 = _term(ip, ip.call(ip.find_method(o, 'cos_avg'), [e], {}))
+            c2 = _term(ip, ip.call(ip.find_method(o, 'cos_sq_avg'), [e], {}))
+            resid = c2 - (c1 * c1 - N.diff(c1, 'epsilon'))
+            if resid.is_zero():
+                ctx.holds(rule, construct, '<cos^2> == <cos>^2 - d<cos>/d(epsilon) identically (moments of one Boltzmann distribution)',
+                          m2.loc(), sample={'cos_avg': N.show(c1)[:200]})
+            else:
+                ctx.violation(rule, construct, 'moment-identity', 'cos_sq_avg - (cos_avg^2 - d cos_avg/d epsilon) = %s: the two are not the '
+                              'first and second moment of the same bond-angle distribution' % N.show(resid)[:200], m2.loc())
+        except (Unsupported, Raised) as ex:
+            ctx.undecided(rule, construct, str(ex), m2.loc())
+    # (b)
+    mk = cls.find_method('kernel_base')
+    construct = KOY + '.kernel_base'
+    if mk is None:
+        ctx.undecided(rule, construct, 'kernel_base vanished')
+        return
+    l, c, c2s = N.sym('l'), N.sym('cos1'), N.sym('cos2')
+    nmax = 5 if ctx.tier == 'thorough' else 2
+    bad, done = [], 0
+    try:
+        for n in range(1, nmax + 1):
+            ip = _ip(ctx.prog)
+            o = Obj(cls, {a: Num(ip.declare(a)) for a in ('sigma', 'l', 'lp', 'cos0', 'cos1', 'cos2', 'epsilon')}, 'self')
+            res = ip.call(ip.find_method(o, 'kernel_base'), [const_num(n)], {})
+            if not (isinstance(res, Seq) and len(res.items) == 2):
+                raise Unsupported('kernel_base returns %r' % (res,))
+            r2, r4 = (_term(ip, x) for x in res.items)
+            want2 = N.NF.const(n)
+            for k in range(1, n):
+                want2 = want2 + 2 * (n - k) * (-c) ** k
+            want2 = l * l * want2
+            done += 1
+            if not r2.equals(want2):
+                bad.append('<r^2>(n=%d) is %s, a chain of %d rigid bonds has %s' % (n, N.show(r2)[:120], n, N.show(want2)))
+            if n == 1 and not r4.equals(l ** 4):
+                bad.append('<r^4>(n=1) is %s, one rigid bond has l^4' % N.show(r4)[:120])
+            if n == 2 and not r4.equals(4 * l ** 4 * (1 - 2 * c + c2s)):
+                bad.append('<r^4>(n=2) is %s, two rigid bonds have 4 l^4 (1 - 2<cos> + <cos^2>)' % N.show(r4)[:160])
+    except (Unsupported, Raised) as ex:
+        ctx.undecided(rule, construct, str(ex), mk.loc())
+        return
+    if bad:
+        ctx.violation(rule, construct, 'geometry', '; '.join(bad[:3]), mk.loc())
+    else:
+        ctx.holds(rule, construct, '<r^2>(n) equals the rigid-bond series for n=1..%d; <r^4>(1) = l^4, <r^4>(2) = 4 l^4 (1 - 2<cos> + <cos^2>)'
+                  % nmax, mk.loc())
+
+
+def _taylor_exp(t, order=5):
+    """every exp atom replaced by its Taylor polynomial: a rational function that agrees with t to that order"""
+    def fatom(a):
+        if a[0] == 'exp':
+            x = N.NF({a[1]: N.ONE})
+            acc, term = N.NF.const(0), N.NF.const(1)
+            for k in range(order + 1):
+                acc = acc + term
+                term = term * x / (k + 1)
+            return acc
+        return N.NF.atom(a)
+    return N.rebuild(t, fatom)
+
+
+def _limit0(f, var):
+    """limit of a rational function as var -> 0 (l'Hopital on numerator and denominator polynomials)"""
+    num, den = N.NF(f.num), N.NF(f.den)
+    for _ in range(12):
+        a, b = N.subs(num, {var: 0}), N.subs(den, {var: 0})
+        if not b.is_zero():
+            return a / b
+        if not a.is_zero():
+            raise Unsupported('the expression diverges as %s -> 0' % var)
+        num, den = N.diff(num, var), N.diff(den, var)
+    raise Unsupported('limit not reached')
+
+
+def rule_koyama_bending(ctx, rule='R11.b'):
+    """How DiscreteKoyama.__init__ obtains the bending energy and the second angular moment, tied to cos_avg / cos_sq_avg
+    themselves (no external reference):
+      * <cos> of the target chain is l/lp - 1 (persistence length of a freely rotating chain: lp = l/(1 + <cos>));
+      * far from the freely jointed limit: epsilon is the root of  cos_avg(e) - <cos>  and cos2 = cos_sq_avg(epsilon);
+      * near it (the linearised branch): epsilon and cos2 are the first-order expansions about epsilon = 0, i.e.
+        cos_avg(0) + cos_avg'(0)*epsilon == <cos>   and   cos2 == cos_sq_avg(0) + cos_sq_avg'(0)*epsilon,
+        where the expansion coefficients are computed from the extracted formulas (Taylor polynomials for the
+        exponentials, l'Hopital for the removable poles)."""
+    cls = ctx.prog.cls(KOY)
+    m = cls.find_method('__init__')
+    construct = KOY + '.__init__'
+    bad, seen = [], set()
+    try:
+        ws = explore(lambda preset: run_koyama_init(ctx.prog, preset), keep_raised=True)
+        # expansion coefficients of the two moment functions
+        ip0 = _ip(ctx.prog)
+        o0 = Obj(cls, {'cos0': Num(ip0.declare('cos0'))}, 'self')
+        e0 = Num(ip0.declare('epsilon'))
+        c1 = _taylor_exp(_term(ip0, ip0.call(ip0.find_method(o0, 'cos_avg'), [e0], {})))
+        c2 = _taylor_exp(_term(ip0, ip0.call(ip0.find_method(o0, 'cos_sq_avg'), [e0], {})))
+        A1, B1 = _limit0(c1, 'epsilon'), _limit0(N.diff(c1, 'epsilon'), 'epsilon')
+        A2, B2 = _limit0(c2, 'epsilon'), _limit0(N.diff(c2, 'epsilon'), 'epsilon')
+        for d, ip, o in ws:
+            if ip is None:
+                continue
+            at = {}
+            for k in ('cos0', 'cos1', 'epsilon', 'cos2'):
+                v = o.attrs.get(k)
+                at[k] = ip.term_of(v)[0] if isinstance(v, (Num, Arr, View)) else None
+            cos0, cos1, eps, cos2 = (at.get(k) for k in ('cos0', 'cos1', 'epsilon', 'cos2'))
+            if any(x is None or P.is_pw(x) for x in (cos0, cos1, eps, cos2)):
+                raise Unsupported('cos0 / cos1 / epsilon / cos2 are not plain terms after construction')
+            if not cos1.equals(N.sym('l') / N.sym('lp') - 1):
+                bad.append('cos1 is %s, a freely rotating chain with persistence length lp has <cos> = l/lp - 1' % N.show(cos1))
+            roots = [x for k_, x in ip.notes if k_ == 'root']
+            if roots:
+                seen.add('root')
+                # the equation handed to the solver
+                xi = Arr(N.sym('root_iter'), 'root-callback-arg', ip)
+                res = ip.call(roots[0]['callback'], [xi], {})
+                t = _term(ip, res)
+                args = [a for a in t.all_atoms() if a[0] == 'fn' and a[1] in ('at', 'slice') and 'root_iter' in N.NF.atom(a).symbols()]
+                u = N.NF.atom(args[0]) if args else N.sym('root_iter')
+                want = _term(ip, ip.call(ip.find_method(o, 'cos_avg'), [Num(u)], {})) - cos1
+                if not t.equals(want):
+                    bad.append('the equation solved for the bending energy is %s = 0, not cos_avg(e) - <cos> = 0' % N.show(t)[:160])
+                want2 = _term(ip, ip.call(ip.find_method(o, 'cos_sq_avg'), [Num(eps)], {}))
+                if not cos2.equals(want2):
+                    bad.append('cos2 is %s, not cos_sq_avg(epsilon)' % N.show(cos2)[:160])
+            else:
+                seen.add('linearised')
+                sub = {'cos0': cos0}
+                r1 = N.subs(A1, sub) + N.subs(B1, sub) * eps - cos1
+                if not r1.is_zero():
+                    bad.append('linearised branch: cos_avg(0) + cos_avg\'(0)*epsilon - <cos> = %s, not 0 (epsilon = %s)' % (
+                        N.show(r1)[:160], N.show(eps)[:120]))
+                r2 = N.subs(A2, sub) + N.subs(B2, sub) * eps - cos2
+                if not r2.is_zero():
+                    bad.append('linearised branch: cos2 differs from cos_sq_avg(0) + cos_sq_avg\'(0)*epsilon by %s' % N.show(r2)[:160])
+    except (Unsupported, Raised, ValueError) as ex:
+        ctx.undecided(rule, construct, str(ex), m.loc())
+        return
+    if bad:
+        ctx.violation(rule, construct, 'bending-energy', '; '.join(sorted(set(bad))[:3]), m.loc())
+    elif seen != {'root', 'linearised'}:
+        ctx.undecided(rule, construct, 'constructor paths seen: %s (expected a root-solving and a linearised branch)' % sorted(seen), m.loc())
+    else:
+        ctx.holds(rule, construct, '<cos> = l/lp - 1; epsilon solves cos_avg(e) = <cos> and cos2 = cos_sq_avg(epsilon); the linearised '
+                  'branch is the first-order expansion of both moments about epsilon = 0', m.loc(),
+                  sample={'cos_avg(0)': N.show(A1), "cos_avg'(0)": N.show(B1), 'cos_sq_avg(0)': N.show(A2), "cos_sq_avg'(0)": N.show(B2)})
+
+
+def run_koyama_init(prog, preset, boundary=False):
     ip = _ip(prog)
     ip.preset = list(preset)
     for s in ('sigma', 'l', 'lp'):
         ip.declare(s)
     cls = prog.cls(KOY)
-    o = ip.construct(cls, [], {'sigma': Num(N.sym('sigma')), 'l': Num(N.sym('l')), 'length': Num(ip.declare('N', integer=True)),
+    sigma = N.sym('sigma')
+    if boundary:
+        # exactly on the refused boundary l == sigma/2, parameters given as Python floats
+        sigma = 2 * N.sym('l')
+        ip.python_scalars = True
+    o = ip.construct(cls, [], {'sigma': Num(sigma), 'l': Num(N.sym('l')), 'length': Num(ip.declare('N', integer=True)),
                                'lp': Num(N.sym('lp'))})
     return ip, o
 
@@ -358,6 +533,15 @@ def rule_koyama_rejection(ctx, rule='R11.v'):
         for e in ip.events:
             if e['kind'] == 'scalar-fn-on-array':
                 scal.append('%s applied to an ndarray at %s' % (e['target'], e['loc']))
+    # the boundary itself: l == sigma/2 must be refused like everything below it, with the same exception
+    try:
+        for d, ip, r in explore(lambda preset: run_koyama_init(ctx.prog, preset, boundary=True), keep_raised=True):
+            if ip is not None:
+                bad.append('an object is constructed for l == sigma/2')
+            elif r.exc != 'ValueError':
+                bad.append('for l == sigma/2 (Python floats) the constructor raises %s at %s, not the documented ValueError' % (r.exc, r.loc))
+    except Unsupported as e:
+        ctx.undecided(rule, construct, 'boundary l == sigma/2: %s' % e, m.loc())
     if not normal:
         bad.append('no normally ending constructor path could be analysed')
     if bad:
